@@ -199,7 +199,8 @@ Inductive msg :=
 | FromErc20 (sender receiver : acct) (denom : name) (amt : Z)
 | SetParams (auth : acct) (tax ratio base : Z) (enable beacon : bool)
 | EvmMode (m : Z)
-| HookToNative (c : Z) (from to : acct) (amt : Z).
+| HookToNative (c : Z) (from to : acct) (amt : Z)
+| UpgradeErc20 (auth : acct) (impl : Z).          (* impl < 0: not a hex address *)
 
 (** ValidateBasic of each message *)
 Definition effective_max (max initial : Z) (mintable : bool) : Z :=
@@ -225,6 +226,7 @@ Definition validate_basic (m : msg) : bool :=
       valid_addr auth && (0 <=? tax) && (tax <=? P18) && (0 <=? ratio) && (ratio <=? P18) && (0 <=? base)
   | EvmMode _ => true
   | HookToNative _ from _ amt => valid_addr from && (0 <=? amt)
+  | UpgradeErc20 auth impl => valid_addr auth && (0 <=? impl)
   end.
 
 (** msgServer.IssueToken + Keeper.IssueToken + AddToken/assertTokenValid *)
@@ -412,6 +414,15 @@ Definition do_hook (s : state) c from to amt : res state :=
         end
     end.
 
+(** msgServer.UpgradeERC20 + Keeper.UpgradeERC20: the beacon's upgradeTo is called; balances held by
+    the proxies are not touched (EVM double: mode 8 = the call reverts) *)
+Definition do_upgrade (s : state) auth : res state :=
+  if negb (auth =? GOV) then RRej
+  else if negb (p_erc20 (pars s)) then RRej
+  else if negb (p_beacon (pars s)) then RRej
+  else if evm_mode s =? 8 then RRej
+  else ROk s.
+
 Definition handle (s : state) (m : msg) : res state :=
   match m with
   | Issue owner sym minu nm scale initial max mintable => do_issue s owner sym minu nm scale initial max mintable
@@ -426,6 +437,7 @@ Definition handle (s : state) (m : msg) : res state :=
   | SetParams auth tax ratio base enable beacon => do_set_params s auth tax ratio base enable beacon
   | EvmMode m => ROk (upd_mode s m)
   | HookToNative c from to amt => do_hook s c from to amt
+  | UpgradeErc20 auth _ => do_upgrade s auth
   end.
 
 (** one message = one transaction: ValidateBasic, then the handler; a failure changes nothing *)
